@@ -91,6 +91,9 @@ def parse_derived(text):
         return ('ok', derived_parser()().parse(text, semantics=parser.BQLSemantics()))
     except tatsu.exceptions.ParseError as exc:
         return ('err', exc.pos)
+    except parser.ParseError as exc:
+        # raised by the semantic actions themselves (invalid calendar date)
+        return ('err', exc.parseinfo.pos)
     except Exception as exc:  # noqa: BLE001
         return ('exc', type(exc).__name__, str(exc)[:80])
 
